@@ -228,3 +228,11 @@ func init() {
 		},
 	})
 }
+
+func init() {
+	// LAG rules are appended to the properties they serve
+	props["C06"].rules = append(props["C06"].rules, ruleLag("C06.lag", []string{"(RectClip64).checkEdges"}, 1,
+		"checkEdges files a vertex under the rectangle edges it shares with its PREDECESSOR; seeded with the vertex's own edges, the first vertex of every result ring is filed under every edge it touches and tidyEdgePair splits or re-joins rings along the wrong edge (3.6% of random polygons came back with a wrong winding number)"))
+	props["C14"].rules = append(props["C14"].rules, ruleLag("C14.lag", []string{"Area64", "AreaD"}, 2,
+		"the shoelace sum pairs every vertex with its cyclic predecessor; seeded with any other vertex the closing edge is wrong and the area is not half the exact shoelace sum"))
+}
